@@ -406,12 +406,41 @@ func c15Sets(c *core.Ctx, pkg *packages.Package) {
 				h, b, _ := g.LoopBlocks(loop)
 				from, opts = an.Loc{B: b, I: 0}, an.ExecOpts{Header: h}
 			}
-			opts.NoTrack = map[types_Object]bool{obj: true}
-			t := an.Table{G: g, From: from, Opts: opts, MayOnly: true, Atoms: []an.Atom{{Name: "n", Values: []string{"eq", "gt"}}},
-				Binder: &an.Binder{Fn: fn, Cmp: map[string]string{"len(" + obj.Name() + ")|0": "n"}}, Targets: []an.Loc{g.Locate(cl)},
-				Want: func(r an.Row, _ int) an.Tri { return an.FromBool(r["n"] == "gt") }}
-			res := t.Run()
-			c.Check(res.OK(), "R4", "nonempty:func="+fn.Name, cl.Pos(), "a replication set is built only when at least one healthy owner was found (error otherwise): "+res.Summary(), res.Rows)
+			// the emptiness test is recognised by the variable it measures, not by its spelling
+			bad := []string{}
+			paths := 0
+			for _, ord := range []string{"eq", "gt"} {
+				leaf := func(e ast.Expr, _ an.Store) an.Tri {
+					be, ok := an.Unparen(e).(*ast.BinaryExpr)
+					if !ok {
+						return an.U
+					}
+					isLen := func(x ast.Expr) bool {
+						cl, ok := an.Unparen(x).(*ast.CallExpr)
+						return ok && an.ObjIs(an.Callee(fn.Info(), cl), "", "len") && len(cl.Args) == 1 && fn.ObjOf(cl.Args[0]) == obj
+					}
+					switch {
+					case isLen(be.X) && fn.Canon(be.Y) == "0":
+						return an.CmpTri(be.Op, ord)
+					case isLen(be.Y) && fn.Canon(be.X) == "0":
+						return an.CmpTri(be.Op, map[string]string{"eq": "eq", "gt": "lt"}[ord])
+					}
+					return an.U
+				}
+				ex := g.Exec(from, []an.Loc{g.Locate(cl)}, leaf, opts)
+				paths += ex.Paths
+				if ord == "eq" && ex.May[0] {
+					bad = append(bad, "reachable with no healthy owner")
+				}
+				if ord == "gt" && !ex.May[0] {
+					bad = append(bad, "unreachable with healthy owners")
+				}
+			}
+			res := struct {
+				ok   bool
+				text string
+			}{len(bad) == 0, fmt.Sprintf("%d paths %v", paths, bad)}
+			c.Check(res.ok, "R4", "nonempty:func="+fn.Name, cl.Pos(), "a replication set is built only when at least one healthy owner was found (error otherwise): "+res.text, paths)
 			return true
 		})
 	}
